@@ -33,6 +33,16 @@ Classify(x) ==
   ELSE IF \E f \in FedUpTo(x, Len(x.writes)) : f.pdu = x.result.pdu /\ IsOwn(x, f) THEN "reply"
   ELSE "foreignReply"
 
+(* why a returned reply is not the own one: which identifiers of the frame it was decoded from differ from the request *)
+Mismatch(x) ==
+  LET cands == {f \in FedUpTo(x, Len(x.writes)) : f.pdu = x.result.pdu} IN
+  IF x.result.kind # "reply" THEN {}
+  ELSE IF cands = {} THEN {"nomatch"}        \* not the PDU of any frame received during this call
+  ELSE LET f == CHOOSE g \in cands : TRUE IN
+       (IF f.uid # x.uid /\ T.kind # "tls" THEN {"uid"} ELSE {})
+       \cup (IF T.kind = "tcp" /\ f.tid # ReqTid(x) THEN {"tid"} ELSE {})
+       \cup (IF Len(f.pdu) >= 1 /\ f.pdu[1] \notin {x.fc, (x.fc + 128) % 256} THEN {"fc"} ELSE {})
+
 Eval(x) ==
   LET obs == [sent |-> Len(x.writes), result |-> Classify(x)]
       frameOK == \A k \in 1..Len(x.writes) :
@@ -58,7 +68,7 @@ Step ==
   /\ out = "run" /\ i <= Len(T.txns)
   /\ LET x == T.txns[i]
          f == Eval(x)
-     IN IF f # {} THEN Verdict("FAIL", i, f, [class |-> Classify(x), sent |-> Len(x.writes), script |-> x.script,
+     IN IF f # {} THEN Verdict("FAIL", i, f, [class |-> Classify(x), sent |-> Len(x.writes), script |-> x.script, mismatch |-> Mismatch(x),
                                              must |-> IF MustReply(Cfg, x.script) THEN 1 ELSE 0]) /\ out' = "done"
         ELSE IF i = Len(T.txns) THEN Verdict("OK", i, {}, [n |-> i]) /\ out' = "done" ELSE out' = "run"
   /\ i' = i + 1 /\ UNCHANGED tr
